@@ -10,8 +10,9 @@
         committed-header write and the position write of a commit).
       - [reachable_g_K]: every such state satisfies [INV] (cinv, auth_state, sinv, hinv), [tinv]
         and the store invariant [SI] of its stores.
-      - [startup_never_fails_partial]: from every such state a clean restart comes up, and so does
-        the restart after a crash at every clean cut of every admissible operation.
+      - [startup_never_fails_partial], [startup_never_fails_any_cut]: from every such state a
+        clean restart comes up, and so does the restart after a crash at EVERY cut of every
+        admissible operation (at the one cut that is not clean only totality is proved).
       - [no_regression_partial]: the state after such a restart / crash has lost no committed
         header and its stored position is not behind the position stored before ([sadv]).
     The full statement (1) is FALSE without [op_nonempty]: Proofs/MirrorResumeWit.v. *)
@@ -20,7 +21,7 @@ From GV Require Import Base.Ints Gen.Math Gen.Kernel Model.Mirror
   Proofs.Thresholds Proofs.MirrorAuth Proofs.MirrorNoop Proofs.MirrorChain Proofs.MirrorCert
   Proofs.MirrorTotal Proofs.MirrorRestart Proofs.MirrorLog
   Proofs.MirrorResumeWit Proofs.MirrorResumeLoad Proofs.MirrorResumeInv Proofs.MirrorResumeStart
-  Proofs.MirrorResumeOps Proofs.MirrorResumeOps2 Proofs.MirrorResumeOps3 Proofs.MirrorResumeOps4
+  Proofs.MirrorResumeAhead Proofs.MirrorResumeOps Proofs.MirrorResumeOps2 Proofs.MirrorResumeOps3 Proofs.MirrorResumeOps4
   Proofs.MirrorResumeOps5.
 Import ListNotations.
 Local Open Scope N_scope.
@@ -109,7 +110,7 @@ Proof.
     subst r1. destruct (K_step _ _ _ _ _ _ HK HT Hw Hs) as (_&_&(ws&L&S&P)).
     assert (Hskip : skipn (List.length (st_log s)) (st_log s1) = ws)
       by (rewrite L, skipn_app, skipn_all, Nat.sub_diag; reflexivity).
-    rewrite Hskip in *. destruct (P k Hcut) as (Q1&Q2&_).
+    rewrite Hskip in *. destruct (proj1 (P k) Hcut) as (Q1&Q2&_).
     rewrite Hi1, Hi2 in Hx.
     destruct (restart_from ih ivs (fold_left apply_wr (firstn k ws) (stores_of s)) (st_vals s)
                 (st_log s ++ firstn k ws) Hih Hivs Q1) as (s2&E2&K2&T2&A2).
@@ -156,7 +157,33 @@ Proof.
     destruct (K_step _ _ _ _ _ _ HK HT Hw Hs) as (_&_&(ws&L&S&P)).
     assert (Hskip : skipn (List.length (st_log s)) (st_log s1) = ws)
       by (rewrite L, skipn_app, skipn_all, Nat.sub_diag; reflexivity).
-    rewrite Hskip in *. destruct (P k Hcut) as (Q1&_&_). rewrite Hi1, Hi2.
+    rewrite Hskip in *. destruct (proj1 (P k) Hcut) as (Q1&_&_). rewrite Hi1, Hi2.
+    destruct (restart_from ih ivs (fold_left apply_wr (firstn k ws) (stores_of s)) (st_vals s)
+                (st_log s ++ firstn k ws) Hih Hivs Q1) as (s2&E2&_).
+    rewrite E2. cbn [bind]. eexists; reflexivity.
+Qed.
+
+(** (1), every crash point: start-up comes up after a crash at ANY point of any admissible
+    operation of such a state - also between the committed-header write and the position write
+    (there only totality is proved: the state after that restart is not shown to satisfy [INV],
+    which is why [reachable_g] does not continue from it) *)
+Theorem startup_never_fails_any_cut ih ivs s :
+  1 <= ih -> vwf ivs -> reachable_g ih ivs s ->
+  forall o k s1 r, step s o = Ok (s1, r) -> wf_op o r ->
+     exists s', xstep s (XCrash k o) = Ok (s', r).
+Proof.
+  intros Hih Hivs Hr o k s1 r Hs Hw. destruct (reachable_g_K ih ivs s Hih Hivs Hr) as [HK HT].
+  pose proof (proj1 (proj1 HK)) as Hc. destruct Hc as (Hi1&Hi2&_).
+  cbn [xstep]. rewrite Hs. cbn [bind fst snd].
+  destruct (K_step _ _ _ _ _ _ HK HT Hw Hs) as (_&_&(ws&L&S&P)).
+  assert (Hskip : skipn (List.length (st_log s)) (st_log s1) = ws)
+    by (rewrite L, skipn_app, skipn_all, Nat.sub_diag; reflexivity).
+  rewrite Hskip, Hi1, Hi2. destruct (P k) as [Pc Pa].
+  destruct (ends_hdr (firstn k ws)) eqn:E.
+  - destruct (restart_ahead_total ih ivs (fold_left apply_wr (firstn k ws) (stores_of s)) (st_vals s)
+                (st_log s ++ firstn k ws) Hih Hivs (Pa eq_refl)) as (s2&E2).
+    rewrite E2. cbn [bind]. eexists; reflexivity.
+  - destruct (Pc eq_refl) as (Q1&_&_).
     destruct (restart_from ih ivs (fold_left apply_wr (firstn k ws) (stores_of s)) (st_vals s)
                 (st_log s ++ firstn k ws) Hih Hivs Q1) as (s2&E2&_).
     rewrite E2. cbn [bind]. eexists; reflexivity.
@@ -189,5 +216,5 @@ Proof.
   destruct (K_step _ _ _ _ _ _ HK HT Hw Hs) as (_&_&(ws&L&S&P)).
   assert (Hskip : skipn (List.length (st_log s)) (st_log s1) = ws)
     by (rewrite L, skipn_app, skipn_all, Nat.sub_diag; reflexivity).
-  unfold st. rewrite Hskip in *. exact (P k Hcut).
+  unfold st. rewrite Hskip in *. exact (proj1 (P k) Hcut).
 Qed.
